@@ -247,7 +247,7 @@ RX_KINDS = ["tsb", "gbc", "guc", "shb", "gac"]
 def check_rx(st, clock, kind, rhl, mhl, lt, sn):
     from ..stack import addr_bytes, so_dict
 
-    so = so_dict(addr_bytes(PEER), clock.now, 413_001_000, 21_001_000)
+    so = so_dict(addr_bytes(PEER if kind != "beacon" else bytes([2, 0, 0, 1, rhl, mhl])), clock.now, 413_001_000, 21_001_000)
     area = {"lat": 413_000_000, "lon": 21_000_000, "a": 1000, "b": 1000, "angle": 0, "shape": 0}
     de = {"addr": addr_bytes(b"\x02\x00\x00\x00\x00\x01"), "tst": so["tst"], "lat": 413_000_000, "lon": 21_000_000}
     payload = b"\x07\xd1\x00\x00x"
@@ -256,6 +256,16 @@ def check_rx(st, clock, kind, rhl, mhl, lt, sn):
     st.receive(pkt)
     inds, sent = st.gn_indications[n_ind:], st.ll.sent[n_sent:]
     vs = []
+    if kind == "beacon":
+        # a beacon is never delivered or forwarded: what it leaves behind is the sender's location-table entry - or nothing at all
+        # when its hop budget is malformed
+        from ..stack import make_addr
+        entry = st.gn.location_table.get_entry(make_addr(so["addr"][2:]))
+        if rhl > mhl and entry is not None:
+            vs.append(violation(ID, "C20/rhl-above-mhl-not-discarded", "beacon with RHL %d > MHL %d entered its sender into the location table" % (rhl, mhl)))
+        if rhl <= mhl and entry is None:
+            vs.append(violation(ID, "C20/valid-hop-budget-not-delivered", "beacon with RHL %d <= MHL %d left no location-table entry" % (rhl, mhl)))
+        return vs
     if rhl > mhl:
         if inds or sent:
             vs.append(violation(ID, "C20/rhl-above-mhl-not-discarded", "%s with RHL %d > MHL %d: %d indications, %d transmissions" % (kind, rhl, mhl, len(inds), len(sent))))
@@ -287,7 +297,7 @@ def job_rx(lo, hi):
         n = 0
         for rhl in range(lo, hi):
             for mhl in range(256):
-                for kind in RX_KINDS:
+                for kind in RX_KINDS + (["beacon"] if mhl in (1, 2, 10, 255) else []):
                     sn = (sn + 1) % 65536
                     lt = (rhl * 7 + mhl * 13 + sn) % 256
                     vs = check_rx(st, clock, kind, rhl, mhl, lt, sn)
